@@ -2,6 +2,7 @@ package main
 
 import (
 	"fmt"
+	"math"
 	"os"
 	"runtime/debug"
 	"sort"
@@ -29,8 +30,94 @@ func (e *Exec) setModel(m Model) {
 	e.evalC = map[*Term]*Term{}
 }
 
+// probeModel: when the solvers give up on PC ∧ extra, try a few thousand concrete assignments
+// (deterministic pseudo-random, biased to small and boundary values) and evaluate the path condition
+// and extra under each. Only ever turns "unknown" into "sat" with a concrete witness, which is then
+// replayed natively like any other model; it never produces "unsat".
+func (e *Exec) probeModel(extra *Term) Model {
+	var pc []*Term
+	for _, d := range e.trail {
+		switch d.kind {
+		case 0:
+			if d.chosen == 1 {
+				pc = append(pc, d.cond)
+			} else {
+				pc = append(pc, e.tt.Not(d.cond))
+			}
+		case 2:
+			pc = append(pc, d.cond)
+		}
+	}
+	seed := uint64(0x9E3779B97F4A7C15)
+	next := func() uint64 {
+		seed ^= seed << 13
+		seed ^= seed >> 7
+		seed ^= seed << 17
+		return seed
+	}
+	fpVals := []float64{0, 1, -1, 0.5, -0.5, 2, 3, 7, -7, 1.5, 2.5, 1e9, -1e9, math.MaxFloat64, math.SmallestNonzeroFloat64, math.Inf(1), math.Inf(-1), math.NaN()}
+	for try := 0; try < 4096; try++ {
+		m := Model{}
+		for _, v := range e.pathAll {
+			switch v.S.K {
+			case SBool:
+				m[v.Name] = e.tt.Bool(next()&1 == 1)
+			case SBV:
+				r := next()
+				var u uint64
+				switch r % 4 {
+				case 0:
+					u = next() // any pattern
+				case 1:
+					u = next() % 8 // small
+				case 2:
+					u = ^uint64(0) - next()%8 // small negative
+				default:
+					u = uint64(1)<<(next()%64) - next()%2
+				}
+				if v.S.W < 64 {
+					u &= uint64(1)<<uint(v.S.W) - 1
+				}
+				m[v.Name] = e.tt.BVConst(u, v.S.W)
+			default:
+				if next()%3 == 0 {
+					m[v.Name] = e.tt.FPConst(math.Float64frombits(next()), v.S)
+				} else {
+					m[v.Name] = e.tt.FPConst(fpVals[next()%uint64(len(fpVals))], v.S)
+				}
+			}
+		}
+		cache := map[*Term]*Term{}
+		ok := true
+		for _, c := range pc {
+			if r := e.tt.Eval(c, m, cache); !r.Const || r.U != 1 {
+				ok = false
+				break
+			}
+		}
+		if !ok {
+			continue
+		}
+		if r := e.tt.Eval(extra, m, cache); r.Const && r.U == 1 {
+			e.S.Stats.Probed++
+			return m
+		}
+	}
+	return nil
+}
+
 // checkSatModel checks PC ∧ extra and returns the model when sat.
 func (e *Exec) checkSatModel(extra *Term) (SatResult, Model) {
+	r, m := e.checkSatModel0(extra)
+	if r == Unknown {
+		if pm := e.probeModel(extra); pm != nil {
+			return Sat, pm
+		}
+	}
+	return r, m
+}
+
+func (e *Exec) checkSatModel0(extra *Term) (SatResult, Model) {
 	if e.tt.HasFP(extra) && extra.id > 0 && e.fpHard(extra) {
 		// floating-point conversions/arithmetic: z3's incremental core is orders of magnitude slower
 		// than its bit-blasting tactics; solve non-incrementally right away.
@@ -284,31 +371,31 @@ type Violation struct {
 }
 
 type JobResult struct {
-	Entry           string
-	Params          map[string]int64
-	Paths           int
-	PathsByEnd      map[string]int
-	Branches        int
-	UnknownBranches int
-	Obligations     int
-	Discharged      int
+	Entry                 string
+	Params                map[string]int64
+	Paths                 int
+	PathsByEnd            map[string]int
+	Branches              int
+	UnknownBranches       int
+	Obligations           int
+	Discharged            int
 	DischargedModuloKnown int
-	TrivialObl      int
-	Violations      []*Violation
-	Known           []*Violation
-	violSeen        map[string]int
-	knownSeen       map[string]int
-	Incon           map[string]int
-	Covers          map[string]int
-	Fns             map[string]bool
-	Samples         []*Violation // sampled passing paths (for differential replay)
-	Cuts            map[string]int
-	Solver          SolverStats
-	WallS           float64
-	Steps           int64
-	Exhausted       bool
-	MaxTrail        int
-	Err             string
+	TrivialObl            int
+	Violations            []*Violation
+	Known                 []*Violation
+	violSeen              map[string]int
+	knownSeen             map[string]int
+	Incon                 map[string]int
+	Covers                map[string]int
+	Fns                   map[string]bool
+	Samples               []*Violation // sampled passing paths (for differential replay)
+	Cuts                  map[string]int
+	Solver                SolverStats
+	WallS                 float64
+	Steps                 int64
+	Exhausted             bool
+	MaxTrail              int
+	Err                   string
 }
 
 func (r *JobResult) noteFn(fn *ssa.Function) {
@@ -378,19 +465,19 @@ func (r *JobResult) noteKnown(e *Exec, kf, label string, m Model) {
 }
 
 type JobSpec struct {
-	Fixed *Violation
-	Entry    string // function name in package
-	Pkg      string // package path
-	Params   map[string]int64
-	MaxSteps int64
-	MaxDepth int
-	MaxPaths int
-	TimeoutS float64
-	Solver   string
+	Fixed           *Violation
+	Entry           string // function name in package
+	Pkg             string // package path
+	Params          map[string]int64
+	MaxSteps        int64
+	MaxDepth        int
+	MaxPaths        int
+	TimeoutS        float64
+	Solver          string
 	SolverTimeoutMs int
-	IncTimeoutMs int
-	InitPkgs []string
-	Samples  int
+	IncTimeoutMs    int
+	InitPkgs        []string
+	Samples         int
 }
 
 func RunJob(P *Program, spec JobSpec, kf map[string]bool) *JobResult {
